@@ -64,6 +64,7 @@ type HLog struct {
 	Active  []int    `json:"active"`
 	Clock   []uint64 `json:"clock"`
 	Results []uint64 `json:"results"` // 0 executed 1 canceled >=2 queued tick
+	Ret     bool     `json:"ret"`
 }
 
 type HTx struct {
@@ -103,6 +104,8 @@ type HistObs struct {
 	Extra     [][]string `json:"extra_tracers,omitempty"`
 	FinalTime []uint64   `json:"final_time"`
 	Err       string     `json:"err,omitempty"`
+	Oracle    [][]int    `json:"oracle"` // called lists of the auto mutations, as queued
+	Rerun     int        `json:"rerun"` // see EvalHist.h_rerun
 }
 
 // ------------------------------------------------------------ tracer
@@ -130,6 +133,9 @@ func (t *recTracer) MutationQueued(_ am.Api, mut *am.Mutation) {
 	ev := "q"
 	if mut.IsAuto {
 		ev = "q:auto"
+		if t.full {
+			t.obs.Oracle = append(t.obs.Oracle, slices.Clone(mut.Called))
+		}
 	} else if mut.IsCheck {
 		ev = "q:check"
 	}
@@ -323,7 +329,7 @@ func runHistory(in *HistInput) (obs *HistObs) {
 	activeIdx := func() []int { return idxOf(m.ActiveStates(nil)) }
 	body := func(bi int, k HKey) bool {
 		a := nextAction()
-		e := HLog{Key: k, Binding: bi, Active: activeIdx(), Clock: m.Time(nil)}
+		e := HLog{Key: k, Binding: bi, Active: activeIdx(), Clock: m.Time(nil), Ret: a.Ret}
 		pos := len(hlog)
 		hlog = append(hlog, e)
 		for _, c := range a.Calls {
@@ -442,6 +448,12 @@ func coqResult(r uint64) string {
 	return fmt.Sprintf("(Queued %d%%N)", r)
 }
 
+func coqTev(e string) string {
+	return map[string]string{"q": "EvQueued false false", "q:auto": "EvQueued true false",
+		"q:check": "EvQueued false true", "init": "EvInit", "start": "EvStart",
+		"finals": "EvFinals", "end": "EvEnd", "qend": "EvQueueEnd"}[e]
+}
+
 func joinMap[T any](xs []T, f func(T) string, sep string) string {
 	parts := make([]string, len(xs))
 	for i, x := range xs {
@@ -468,14 +480,13 @@ func coqHCase(in *HistInput, obs *HistObs) string {
 	if ql == 0 {
 		ql = 1000
 	}
-	var oracle [][]int
-	for _, t := range obs.Txs {
-		if t.Auto {
-			oracle = append(oracle, t.Called)
-		}
+	sorted := make([]int, len(in.States))
+	for i := range sorted {
+		sorted[i] = i
 	}
-	fmt.Fprintf(&b, "{| h_schema := %s;\n h_topo := %s; h_health := %s; h_exc := %d%%nat; h_qlimit := %d%%N;\n",
-		joinMap(obs.Parsed, coqSdef, ";\n   "), coqNatList(obs.Topology), coqNatList(healthIdx(in)), exc, ql)
+	slices.SortFunc(sorted, func(a, b int) int { return strings.Compare(in.States[a].Name, in.States[b].Name) })
+	fmt.Fprintf(&b, "{| h_schema := %s;\n h_topo := %s; h_sorted := %s; h_health := %s; h_exc := %d%%nat; h_qlimit := %d%%N;\n",
+		joinMap(obs.Parsed, coqSdef, ";\n   "), coqNatList(obs.Topology), coqNatList(sorted), coqNatList(healthIdx(in)), exc, ql)
 	fmt.Fprintf(&b, " h_bindings := %s;\n", joinMap(in.Bindings, func(bd []HKey) string {
 		return joinMap(bd, coqHKey, "; ")
 	}, "; "))
@@ -484,7 +495,6 @@ func coqHCase(in *HistInput, obs *HistObs) string {
 		return fmt.Sprintf("{| ha_ret := %s; ha_calls := %s; ha_fault := %s |}", coqBool(a.Ret), coqCalls(a.Calls), f)
 	}, "; "))
 	fmt.Fprintf(&b, " h_calls := %s;\n", coqCalls(in.Calls))
-	fmt.Fprintf(&b, " h_oracle := %s;\n", joinMap(oracle, coqNatList, "; "))
 	// observed trace
 	fmt.Fprintf(&b, " h_obs := {| tr_calls := %s;\n", joinMap(obs.Calls, func(c HCallObs) string {
 		return fmt.Sprintf("{| co_result := %s; co_time := %s; co_active := %s; co_qtick := %d%%N; co_ntx := %d%%nat |}",
@@ -499,15 +509,14 @@ func coqHCase(in *HistInput, obs *HistObs) string {
 			coqNList(t.After), coqNatList(t.ActiveBefore), coqNatList(t.Target), coqBool(t.Accepted),
 			coqNList(t.MachAfter), t.HFrom, t.HTo)
 	}, ";\n   "))
-	fmt.Fprintf(&b, "  tr_evs := %s;\n", joinMap(obs.Events, func(e string) string {
-		return map[string]string{"q": "EvQueued false false", "q:auto": "EvQueued true false",
-			"q:check": "EvQueued false true", "init": "EvInit", "start": "EvStart",
-			"finals": "EvFinals", "end": "EvEnd", "qend": "EvQueueEnd"}[e]
-	}, "; "))
+	fmt.Fprintf(&b, "  tr_evs := %s;\n", joinMap(obs.Events, coqTev, "; "))
 	fmt.Fprintf(&b, "  tr_hlog := %s;\n", joinMap(obs.HLog, func(h HLog) string {
-		return fmt.Sprintf("{| hl_key := %s; hl_binding := %d%%nat; hl_active := %s; hl_clock := %s; hl_results := %s |}",
-			coqHKey(h.Key), h.Binding, coqNatList(h.Active), coqNList(h.Clock), joinMap(h.Results, coqResult, "; "))
+		return fmt.Sprintf("{| hl_key := %s; hl_binding := %d%%nat; hl_active := %s; hl_clock := %s; hl_results := %s; hl_ret := %s |}",
+			coqHKey(h.Key), h.Binding, coqNatList(h.Active), coqNList(h.Clock), joinMap(h.Results, coqResult, "; "), coqBool(h.Ret))
 	}, ";\n   "))
-	fmt.Fprintf(&b, "  tr_crashed := %s; tr_oracle_bad := false; tr_fuel_ok := true |} |}", coqBool(obs.Crashed))
+	fmt.Fprintf(&b, "  tr_crashed := %s; tr_fuel_ok := true |};\n", coqBool(obs.Crashed))
+	fmt.Fprintf(&b, " h_extra := %s; h_rerun := %d%%N |}", joinMap(obs.Extra, func(ev []string) string {
+		return joinMap(ev, coqTev, "; ")
+	}, "; "), obs.Rerun)
 	return b.String()
 }
